@@ -111,6 +111,14 @@ func encTo(sb *strings.Builder, v interface{}, depth int, onPath map[uintptr]boo
 			sb.WriteString(t)
 			return
 		}
+		if mm, isMap := v.(mxj.Map); isMap && depth > 0 {
+			// a value of Go type mxj.Map INSIDE a value: the library's walkers switch on
+			// map[string]interface{} only, so for them (and for the model) it is an opaque leaf
+			var ib strings.Builder
+			encMap(&ib, map[string]interface{}(mm), 1, onPath)
+			sb.WriteString("#M:" + hx(ib.String()))
+			return
+		}
 		if m, ok := asMap(v); ok {
 			encMap(sb, m, depth, onPath)
 			return
@@ -261,6 +269,21 @@ func decNum(t string) (interface{}, error) {
 	case "i8":
 		n, err := strconv.ParseInt(txt, 10, 8)
 		return int8(n), err
+	case "M":
+		b, err := hex.DecodeString(txt)
+		if err != nil {
+			return nil, err
+		}
+		p := 0
+		iv, err := decVal(strings.Fields(string(b)), &p)
+		if err != nil {
+			return nil, err
+		}
+		im, ok := iv.(map[string]interface{})
+		if !ok {
+			return nil, fmt.Errorf("bad typed-map token")
+		}
+		return mxj.Map(im), nil
 	}
 	return nil, fmt.Errorf("bad number tag %q", tag)
 }
